@@ -155,6 +155,7 @@ class Lib:
         S.append((path(r"^<std::slice::Iter(Mut)?<'a, T> as std::iter::DoubleEndedIterator>::next_back$"), self.slice_iter_next_back))
         S.append((path(r"^core::slice::<impl \[T\]>::first$"), self.first))
         S.append((path(r"^<std::slice::Iter<'a, T> as std::iter::Iterator>::(all|any)$"), self.slice_iter_all_any))
+        S.append((path(r"^<std::slice::Iter(Mut)?<'a, T> as std::iter::Iterator>::for_each$"), self.slice_iter_for_each))
         S.append((path(r"^std::vec::Vec::<T, A>::remove$"), self.vec_remove))
         S.append((path(r"^std::vec::Vec::<T, A>::swap_remove$"), self.vec_swap_remove))
         S.append((path(r"^std::vec::Vec::<T, A>::insert$"), self.vec_insert))
@@ -302,6 +303,38 @@ class Lib:
         st.heap[iid] = AIter(a.vec, a.pos + 1, a.end)
         st.emit("elem", a.vec, a.pos)
         return mk_some(rty, Ref(("H", a.vec), (("el", a.pos),)))
+
+    def slice_iter_for_each(self, it, st, inst, args, call):
+        """`iter.for_each(f)` over an exactly modelled slice iterator (taken by value): the closure body is interpreted once
+        per remaining element, front to back."""
+        from .absint import CallThen
+        v = args[0]
+        if not (isinstance(v, Obj) and isinstance(st.heap.get(v.id), AIter)):
+            return NotImplemented
+        iid = v.id
+        bodies = [c for c in (s_["callee"] for s_ in it.p.sites(inst["id"])) if c is not None and it.p.inst[c].get("def_kind") == "Closure"]
+        if len(set(bodies)) != 1:
+            # the closure is called through a helper of the std implementation: take it from the generic arguments
+            bodies = []
+            for a_ in inst.get("args", []):
+                t = it.p.types[a_]
+                if t["k"] == "closure":
+                    bodies = [i_["id"] for i_ in it.p.inst if i_.get("def_kind") == "Closure" and i_.get("has_mir") and i_["path"] == t.get("name")]
+            if len(set(bodies)) != 1:
+                raise Undecided("cannot identify the closure passed to %s" % inst["name"][:80])
+        body = bodies[0]
+        fcell = st.new_obj(args[1])
+
+        def step(it_, st_):
+            a = st_.heap[iid]
+            if a.pos >= a.end:
+                return UNIT
+            st_.heap[iid] = AIter(a.vec, a.pos + 1, a.end)
+            st_.emit("elem", a.vec, a.pos)
+            elem = Ref(("H", a.vec), (("el", a.pos),))
+            return CallThen(body, [Ref(("H", fcell.id), ()), elem], lambda it2, st2, rv: step(it2, st2))
+
+        return step(it, st)
 
     def slice_iter_all_any(self, it, st, inst, args, call):
         """`iter.all(f)` / `iter.any(f)` over an exactly modelled slice iterator: the closure body is interpreted once per
